@@ -43,7 +43,8 @@ pub fn expand_position(
         })
         .unwrap_or_else(|| info.clone());
 
-    // increase position
+    // increase position, keeping track of the position's amount before the expansion
+    let mut previous_amount = Uint128::zero();
     OPEN_POSITIONS.update::<_, ContractError>(
         deps.storage,
         receiver.sender.clone(),
@@ -56,6 +57,7 @@ pub fn expand_position(
                 .find(|position| position.unbonding_duration == unbonding_duration)
                 .ok_or(ContractError::NonExistentPosition { unbonding_duration })?;
 
+            previous_amount = pos.amount;
             pos.amount += amount;
 
             Ok(positions)
@@ -63,7 +65,12 @@ pub fn expand_position(
     )?;
 
     // add the weight to the global weight and the user's weight
-    let weight = calculate_weight(unbonding_duration, amount)?;
+    // the weight added is the difference between the weight of the expanded position and the weight
+    // of the position before the expansion. calculate_weight rounds down, so the weight of the
+    // added amount alone could be less than that, and closing the position removes the weight of
+    // the whole position.
+    let weight = calculate_weight(unbonding_duration, previous_amount.checked_add(amount)?)?
+        .checked_sub(calculate_weight(unbonding_duration, previous_amount)?)?;
     GLOBAL_WEIGHT.update::<_, StdError>(deps.storage, |global_weight| {
         Ok(global_weight.checked_add(weight)?)
     })?;
